@@ -186,6 +186,28 @@ func groupCases[P curves.Point[P, F, S], F algebra.FieldElement[F], S algebra.Pr
 		w := must(sigand.ComposeWitnesses(schnorr.NewWitness(w1), schnorr.NewWitness(w2)))
 		cases = append(cases, mkCase("and2schnorr/"+gname, proto, rec, x, w, x2, 16))
 	}
+	// --- n-way AND with count 1, 3, 5 (Fiat–Shamir only; count 2 above runs every compiler)
+	for _, cnt := range []int{1, 3, 5} {
+		rec := newRec()
+		base := must(schnorr.NewProtocol(g, rec))
+		proto := must(sigand.Compose(base, uint(cnt)))
+		var sts, sts2 []*schnorr.Statement[P, S]
+		var wts []*schnorr.Witness[S]
+		for i := 0; i < cnt; i++ {
+			wi := must(field.Random(r))
+			if i == 0 {
+				wi = pickScalar(r, field, variant)
+			}
+			sts = append(sts, schnorr.NewStatement(g.ScalarOp(wi)))
+			sts2 = append(sts2, sts[i])
+			wts = append(wts, schnorr.NewWitness(wi))
+		}
+		sts2[cnt-1] = schnorr.NewStatement(g.ScalarOp(must(field.Random(r))))
+		c := mkCase(fmt.Sprintf("and%dschnorr/%s", cnt, gname), proto, rec, must(sigand.ComposeStatements(sts...)), must(sigand.ComposeWitnesses(wts...)), must(sigand.ComposeStatements(sts2...)), 16)
+		c.compilers = []compiler.Name{fiatshamir.Name}
+		cases = append(cases, c)
+		lins = append(lins, andLin(gname, curve, cnt, r))
+	}
 	// --- OR of three Schnorr statements, exactly one witness known (position = variant mod 3)
 	{
 		rec := newRec()
